@@ -110,6 +110,10 @@ func (r *referenceResovle) resolveSelectorExpression(v *SelectorExpression) erro
 }
 
 func (r *referenceResovle) resolveCallExpression(v *CallExpression) error {
+	// the callee must be a name or a path, as it must be for evaluation
+	if _, err := resolveCallNames(v.Expression); err != nil {
+		return err
+	}
 	if v.Arguments != nil && v.Arguments.Len() > 0 {
 		for i := 0; i < v.Arguments.Len(); i++ {
 			err := r.resolve(v.Arguments.At(i))
